@@ -928,10 +928,29 @@ def run_edge(ctx, n):
                 break
 
 
+def check_hypotheses(ctx, cases):
+    """the decidable hypotheses of the theorems evaluated BY THE DRIVER on the generated cases: `noDynCoefB` (hypothesis of
+    the `_partial` theorems) must single out exactly the variables the harness files under finding F-C10-2, and the
+    distribution of `rhsNamesOkB` (hypothesis of C10_reported_derivative_is_core_derivative) goes into the evidence"""
+    if not ctx.driver_ok:
+        return
+    good = [c for c in cases if not malformed(c)]
+    resp = driver.call_batch([dict(_req(c), checks=True) for c in good])
+    for c, r in zip(good, resp):
+        o = Oracle(c)
+        want = [[k, not o.has_dynamic_coef(k)] for k, _ in c["content"]["vars"]]
+        if sorted(r["no_dyn_coef"]) != sorted(want):
+            ctx.add_drift({k: c[k] for k in ("content", "segs")}, {"finding_class_of_the_harness": want}, {"noDynCoefB": r["no_dyn_coef"]},
+                          "the hypothesis of the _partial theorems and the harness's finding class F-C10-2 single out different variables")
+        key = f"hyp:rhsNamesOk={r['rhs_names_ok']}:noDynCoef={'all' if all(b for _, b in r['no_dyn_coef']) else 'some-dynamic'}"
+        ctx.hist[key] = ctx.hist.get(key, 0) + 1
+
+
 def run(ctx):
     setup(ctx)
     done = 0
     ex = exhaustive_cases()
+    check_hypotheses(ctx, ex[:1])
     for case, (R, M, S, L) in zip(ex, evaluate(ex, ctx.driver_ok)):
         judge_case(ctx, case, R, M, S, L)
         if len(ctx.violations) > 10:
@@ -946,6 +965,7 @@ def run(ctx):
         cases = [gen_case(ctx, done + j) for j in range(min(batch, n - done))]
         for case, (R, M, S, L) in zip(cases, evaluate(cases, ctx.driver_ok)):
             judge_case(ctx, case, R, M, S, L)
+        check_hypotheses(ctx, cases)
         done += len(cases)
         if len(ctx.violations) > 10:
             break
